@@ -43,9 +43,19 @@ fn run_seed(host_dir: &Path, target: &Path, seed: u64, plan: &str) -> Result<Str
 
 /// `rate`: Miri's probability of preempting the running thread at the end of a basic block
 fn run_seed_rate(host_dir: &Path, target: &Path, seed: u64, rate: Option<&str>, plan: &str) -> Result<String, String> {
+    run_seed_on(host_dir, target, seed, rate, None, plan)
+}
+
+/// `machine`: interpret the host for another target triple (Miri builds that target's
+/// sysroot from rust-src, offline): a simulated build host with another word size / byte order
+fn run_seed_on(host_dir: &Path, target: &Path, seed: u64, rate: Option<&str>, machine: Option<&str>, plan: &str) -> Result<String, String> {
     let mut c = Command::new("cargo");
     c.current_dir(host_dir);
-    c.args(["+nightly", "miri", "run", "--offline", "-q", "--"]);
+    c.args(["+nightly", "miri", "run", "--offline", "-q"]);
+    if let Some(m) = machine {
+        c.args(["--target", m]);
+    }
+    c.arg("--");
     // with isolation on the interpreted program cannot read stdin: the history travels in argv
     c.arg(format!("--plan={}", plan));
     c.env("CARGO_NET_OFFLINE", "true");
@@ -248,6 +258,33 @@ pub fn run(cfg: &Cfg, corpus: &Corpus) -> Result<TierResult, String> {
             Err(_) => failed_runs += 1,
         }
     }
+    // ---- other machines: the same panel, plus short inputs with integer literals at the
+    // boundaries of the integer widths, interpreted for a 32-bit and for a big-endian target
+    let mut machine_texts: Vec<String> = texts.clone();
+    let mut boundary: Vec<&String> = sel.rej.iter().chain(sel.acc.iter()).filter(|t| t.len() < 900 && (t.contains("0x") || t.contains("4294967296") || t.contains("2147483648") || t.contains("18446744073709551615") || t.contains("9223372036854775807"))).collect();
+    boundary.sort_by_key(|t| t.len());
+    for t in boundary.iter().take(4) {
+        machine_texts.push((*t).clone());
+    }
+    // ... and freshly generated enums over primitive types until eight of them carry such literals
+    {
+        let mut rng = crate::prng::Rng::new(cfg.seed ^ 0x6d61_6368_696e_65);
+        let mut found = 0;
+        for _ in 0..4000 {
+            if found >= 8 {
+                break;
+            }
+            let t = crate::gen::generate(&mut rng, corpus, crate::gen::Class::W5Enum).render();
+            if t.len() < 1200 && (t.contains("0x") || t.contains("4294967296") || t.contains("2147483648") || t.contains("18446744073709551615") || t.contains("9223372036854775807")) && !machine_texts.contains(&t) {
+                machine_texts.push(t);
+                found += 1;
+            }
+        }
+    }
+    let machine_plan = build_alone_plan(&machine_texts);
+    // (these three runs share the worker threads of the pair runs below)
+    let machines = ["i686-unknown-linux-gnu", "s390x-unknown-linux-gnu"];
+    let machine_runs: Mutex<Vec<(usize, Result<String, String>)>> = Mutex::new(Vec::new());
     // ---- free-running pairs under Miri's scheduler
     // the shortest inputs that have member-level instructions naming a counterpart, in copies with fresh type names
     let mut bases: Vec<String> = sel.acc.iter().chain(sel.rej.iter()).filter(|t| t.len() < 400 && t.contains("| ")).cloned().collect();
@@ -269,6 +306,13 @@ pub fn run(cfg: &Cfg, corpus: &Corpus) -> Result<TierResult, String> {
     let next = AtomicUsize::new(0);
     let pair_results: Mutex<Vec<(u64, &str, String, Result<String, String>)>> = Mutex::new(Vec::new());
     std::thread::scope(|s| {
+        for k in 0..3usize {
+            let (host_dir, target, machine_plan, machine_runs) = (&host_dir, &target, &machine_plan, &machine_runs);
+            s.spawn(move || {
+                let r = if k == 0 { run_seed(host_dir, target, 0, machine_plan) } else { run_seed_on(host_dir, target, 0, None, Some(machines[k - 1]), machine_plan) };
+                machine_runs.lock().unwrap().push((k, r));
+            });
+        }
         for _ in 0..12.min(pair_seeds.len()) {
             s.spawn(|| loop {
                 let i = next.fetch_add(1, Ordering::SeqCst);
@@ -282,6 +326,31 @@ pub fn run(cfg: &Cfg, corpus: &Corpus) -> Result<TierResult, String> {
             });
         }
     });
+    let mut machines_json = Vec::new();
+    let mut machine_violation: Option<(String, String)> = None;
+    {
+        let mut runs = machine_runs.into_inner().unwrap();
+        runs.sort_by_key(|r| r.0);
+        if let Some((_, Ok(native))) = runs.first() {
+            let native_r = renderings(native)?;
+            for (k, r) in runs.iter().skip(1) {
+                let m = machines[*k - 1];
+                match r {
+                    Ok(log) => {
+                        let rr = renderings(log)?;
+                        let diff = rr.iter().zip(native_r.iter()).find(|(a, b)| a != b);
+                        machines_json.push(json!({"target": m, "inputs": machine_texts.len(), "equal_to_x86_64": diff.is_none()}));
+                        if let Some((a, b)) = diff {
+                            if machine_violation.is_none() {
+                                machine_violation = Some((format!("input {} rendered differently on a simulated {} host than on x86_64 (both under Miri, seed 0): {}", a.0, m, first_diff(&b.1, &a.1)), m.to_string()));
+                            }
+                        }
+                    },
+                    Err(e) => machines_json.push(json!({"target": m, "ran": false, "note": e.chars().take(200).collect::<String>()})),
+                }
+            }
+        }
+    }
     let mut pair_results = pair_results.into_inner().unwrap();
     pair_results.sort_by_key(|r| r.0);
     let mut pair_equal = 0;
@@ -375,6 +444,15 @@ pub fn run(cfg: &Cfg, corpus: &Corpus) -> Result<TierResult, String> {
             vio_out = Some((msg.clone(), path));
         }
     }
+    if vio_out.is_none() && violation.is_none() {
+        if let Some((msg, machine)) = &machine_violation {
+            let path = cfg.verif.join("replays").join(format!("C19-{}-miri-machine.json", cfg.seed));
+            let _ = std::fs::create_dir_all(cfg.verif.join("replays"));
+            let v = json!({"property": "C19", "kind": "miri_tier", "what": msg, "repo": cfg.repo.to_string_lossy(), "plan": machine_plan, "machine": machine, "seed_a": 0, "seed_b": 0});
+            std::fs::write(&path, serde_json::to_string_pretty(&v).unwrap()).map_err(|e| e.to_string())?;
+            vio_out = Some((msg.clone(), path));
+        }
+    }
     if let Some((msg, sa, sb)) = &violation {
         let path = cfg.verif.join("replays").join(format!("C19-{}-miri.json", cfg.seed));
         let _ = std::fs::create_dir_all(cfg.verif.join("replays"));
@@ -384,9 +462,9 @@ pub fn run(cfg: &Cfg, corpus: &Corpus) -> Result<TierResult, String> {
     }
     Ok(TierResult {
         json: json!({"ran": true, "inputs": texts.len(), "expansions_per_seed": texts.len() * 2, "seeds": n_seeds, "runs_equal_to_seed0": equal, "runs_failed_to_execute": failed_runs,
-                     "concurrent_pair_runs": pair_results.len(), "concurrent_pair_runs_equal_to_alone": pair_equal, "concurrent_pair_runs_failed_to_execute": pair_failed, "concurrent_pairs_per_run": pair_results.first().map(|r| r.2.lines().filter(|l| l.starts_with("Y ")).count()).unwrap_or(0), "preemption_rates": rates,
+                     "concurrent_pair_runs": pair_results.len(), "concurrent_pair_runs_equal_to_alone": pair_equal, "concurrent_pair_runs_failed_to_execute": pair_failed, "concurrent_pairs_per_run": pair_results.first().map(|r| r.2.lines().filter(|l| l.starts_with("Y ")).count()).unwrap_or(0), "preemption_rates": rates, "other_machines": machines_json,
                      "wall_s": t0.elapsed().as_secs_f64(),
-                     "what_varies": "with isolation on, Miri derives getrandom (RandomState keys) and all allocation addresses from -Zmiri-seed"}),
+                     "what_varies": "with isolation on, Miri derives getrandom (RandomState keys), all allocation addresses and its thread schedule from -Zmiri-seed; other_machines: the host interpreted for a 32-bit and for a big-endian target"}),
         violation: vio_out,
     })
 }
@@ -396,6 +474,25 @@ pub fn replay(cfg: &Cfg, v: &Value, path: &Path) -> i32 {
     let target = cfg.build_dir.join("target-miri");
     let plan = v["plan"].as_str().unwrap_or("").to_string();
     let (sa, sb) = (v["seed_a"].as_u64().unwrap_or(0), v["seed_b"].as_u64().unwrap_or(1));
+    if let Some(machine) = v["machine"].as_str() {
+        return match (run_seed(&host_dir, &target, 0, &plan), run_seed_on(&host_dir, &target, 0, None, Some(machine), &plan)) {
+            (Ok(a), Ok(b)) => {
+                let (Ok(ra), Ok(rb)) = (renderings(&a), renderings(&b)) else { return 2 };
+                if ra != rb {
+                    println!("replay (miri tier, {} host): renderings differ", machine);
+                    println!("VIOLATION property=C19 replay={}", path.display());
+                    1
+                } else {
+                    println!("replay (miri tier): no longer reproduces");
+                    0
+                }
+            },
+            (Err(e), _) | (_, Err(e)) => {
+                eprintln!("harness error: {}", e);
+                2
+            },
+        };
+    }
     if let Some(ref_plan) = v["reference_plan"].as_str() {
         let rate = v["preemption_rate"].as_str().unwrap_or("0.01").to_string();
         return match (run_seed(&host_dir, &target, sa, ref_plan), run_seed_rate(&host_dir, &target, sb, Some(&rate), &plan)) {
